@@ -67,3 +67,16 @@ Theorem C05_gram_perm (R : comRingType) (m n q : nat) (s : 'S_q) (A : 'M[R]_(m,q
   (A *m perm_mx s) *m (B *m perm_mx s)^T = A *m B^T.
 Proof. exact: Perm.gram_perm. Qed.
 Print Assumptions C05_gram_perm.
+
+(* ---------- about the code itself: shift_episodes as REGENERATED from the source on this run
+   (tools/gen_episodes.py -> Gen/EpisodesGen.v: the per-episode slices X_i[:-1, :],
+   X_i[1:, :] / X_i[1:, :-n_inputs] under the split / apply / combine frame) is the model's
+   shift_episodes, about which the theorems above are proved *)
+From PK Require Import SliceLib BridgeEpisodes.
+From PK.Gen Require Import EpisodesGen.
+
+Theorem C05_generated_shift : forall (T : Type) (ep : bool) nu (X : dmat T),
+  shift_episodes ep nu X
+  = (map_episodes ep (gen_shift_unshifted_ep T nu) X, map_episodes ep (gen_shift_shifted_ep T nu) X).
+Proof. exact gen_shift_episodes_model. Qed.
+Print Assumptions C05_generated_shift.
